@@ -152,12 +152,25 @@ type RecConn struct {
 	readTimeout  time.Duration
 	readTimeouts []time.Duration
 	expired      bool
+	// stalled: the peer has stopped reading and the carrier's buffers are full: every Send blocks (before it takes
+	// effect and is logged) until the peer reads again or the connection is closed
+	stalled  bool
+	sendCond *sync.Cond
 }
 
 func newRecConn(l *Log) *RecConn {
 	c := &RecConn{log: l, failSend: map[int]bool{}}
 	c.inCond = sync.NewCond(&c.mu)
+	c.sendCond = sync.NewCond(&c.mu)
 	return c
+}
+
+// stall: from now on the peer does not read (writers block); unstall: it reads again
+func (c *RecConn) stall(on bool) {
+	c.mu.Lock()
+	c.stalled = on
+	c.mu.Unlock()
+	c.sendCond.Broadcast()
 }
 
 func (c *RecConn) feed(p packet.Generic) {
@@ -176,6 +189,9 @@ func (c *RecConn) feedErr() {
 
 func (c *RecConn) Send(pkt packet.Generic, async bool) error {
 	c.mu.Lock()
+	for c.stalled && !c.closed {
+		c.sendCond.Wait()
+	}
 	c.sends++
 	var err error
 	if c.closed {
@@ -235,6 +251,7 @@ func (c *RecConn) Close() error {
 	c.log.add("ConnClose %%g")
 	c.mu.Unlock()
 	c.inCond.Broadcast()
+	c.sendCond.Broadcast()
 	return nil
 }
 
@@ -400,6 +417,34 @@ type ScriptBackend struct {
 	received   int
 	queue      chan *packet.Message
 	wg         sync.WaitGroup
+	// deqGate: the next message Dequeue takes out of the queue is handed to the connection only once the gate is released
+	// (the backend has removed it from its queue; whatever happens to the connection meanwhile, the message is now the
+	// connection's responsibility); deqHeld: a message is being held at the gate right now
+	deqGate chan struct{}
+	deqHeld bool
+}
+
+// holdNextDequeue arms the gate; releaseDequeue opens it
+func (b *ScriptBackend) holdNextDequeue() {
+	b.mu.Lock()
+	b.deqGate = make(chan struct{})
+	b.mu.Unlock()
+}
+
+func (b *ScriptBackend) releaseDequeue() {
+	b.mu.Lock()
+	g := b.deqGate
+	b.deqGate = nil
+	b.mu.Unlock()
+	if g != nil {
+		close(g)
+	}
+}
+
+func (b *ScriptBackend) dequeueHeld() bool {
+	b.mu.Lock()
+	defer b.mu.Unlock()
+	return b.deqHeld
 }
 
 func newScriptBackend(l *Log, s *RecSession) *ScriptBackend {
@@ -565,6 +610,21 @@ func (b *ScriptBackend) Dequeue(c *broker.Client) (*packet.Message, broker.Ack, 
 	}
 	select {
 	case m := <-b.queue:
+		b.mu.Lock()
+		gate := b.deqGate
+		if gate != nil {
+			b.deqHeld = true
+		}
+		b.mu.Unlock()
+		if gate != nil {
+			select {
+			case <-gate:
+			case <-time.After(settleMax):
+			}
+			b.mu.Lock()
+			b.deqHeld = false
+			b.mu.Unlock()
+		}
 		if b.deqAck {
 			b.log.add("DeqRet %%g msg %s 1", hx.MsgText(m))
 			return m, func() { b.log.add("DeqAck %%g") }, nil
